@@ -6,7 +6,19 @@ from .shapes import TRANSPARENT
 # calls that only hand out a view / a pure observation: they stay inside terms but are not events of their own
 QUIET = set(TRANSPARENT) | set(["filter", "map", "enumerate", "flatten", "flat_map", "rev", "chain", "zip", "skip", "take", "cloned", "copied", "filter_map", "inspect",
                                 "by_ref", "len", "is_empty", "clone", "into_iter", "iter", "iter_mut", "deref", "deref_mut", "index", "index_mut", "from", "into",
-                                "as_ref", "as_mut", "borrow", "to_owned", "must_use", "discriminant_value"])
+                                "as_ref", "as_mut", "borrow", "to_owned", "must_use", "discriminant_value",
+                                "new_uninit", "box_assume_init_into_vec_unsafe", "into_vec"])
+
+
+def _fresh_box(ev, t):
+    """The place is inside a box that was allocated (uninitialised) on this path: writing it is how `vec![..]` fills
+    its buffer, not something anybody else can see."""
+    while isinstance(t, tuple) and t and t[0] in ("field", "proj", "cast", "variant", "index"):
+        t = t[2] if t[0] == "cast" else t[1]
+    if isinstance(t, tuple) and t and t[0] == "call":
+        c = ev.callee(t[1])
+        return c is not None and not c.local and c.name == "new_uninit"
+    return False
 
 
 class Canon(object):
@@ -108,6 +120,8 @@ class Canon(object):
                     continue
                 out.append(self.term(x[4]) if x[4] is not None else ("call", x[2].name, tuple(self.term(a) for a in x[3])))
             elif x[0] == "store":
+                if x[2][0] != "cell" and _fresh_box(self.ev, x[2]):
+                    continue
                 pl = ("cell", self.key_name(x[2][1])) if x[2][0] == "cell" else self.term(x[2])
                 out.append(("store", pl, self.term(x[3])))
             elif x[0] == "loop":
